@@ -1185,9 +1185,12 @@ class MultiDimGridPDF(
 
         # Create the internal PDF object.
         if path_to_pdf_splinetable is None:
+            # The interpolator keeps a reference to the given value array.
+            # Use an own copy of the grid data, otherwise a later in-place
+            # change of the caller's array would silently change this PDF.
             self._pdf = RegularGridInterpolator(
                 tuple([binning.binedges for binning in self._axis_binning_list]),
-                pdf_grid_data,
+                np.array(pdf_grid_data),
                 method='linear',
                 bounds_error=False,
                 fill_value=0)
